@@ -33,10 +33,10 @@ Definition expand_c (M : Matc) (basis : list Matc) : list Cc :=
 Definition liouville_generic (U : Matc) (basis : list Matc) : list (list T) :=
   map (fun M => expand_re M basis) (conjugated_basis U basis).
 
-(* index pairs j < k in the order used by Basis.ggm and ggm_expand:
+(* index pairs j < k in the order used by Basis.ggm and ggm_expand (row-major over j, then k > j):
    j = repeat(arange(d-1), arange(d-1,0,-1)),  k = arange(1,n_sym+1) - (j*(2d-j-3)/2)           *)
 Definition ggm_pairs : list (nat * nat) :=
-  concat (build (d - 1) (fun j => build (d - 1 - j) (fun t => (j, j + 1 + t)))).
+  concat (build d (fun j => map (fun k => (j, k)) (filter (Nat.ltb j) (seq 0 d)))).
 (* the closed formula of the source for the k index of the t-th pair (0-based t), given its j *)
 Definition ggm_k_formula (j t : nat) : nat := (t + 1) - (j * (2 * d - j - 3)) / 2.
 
@@ -64,14 +64,14 @@ Definition ggm_diag (l : nat) : Matc :=
       else c0 Op
     else c0 Op).
 Definition ggm_basis : list Matc :=
-  ggm_id :: map ggm_sym ggm_pairs ++ map ggm_asym ggm_pairs ++ build (d - 1) (fun l' => ggm_diag (S l')).
+  ggm_id :: map ggm_sym ggm_pairs ++ map ggm_asym ggm_pairs ++ build (Nat.pred d) (fun l' => ggm_diag (S l')).
 
 (* basis.ggm_expand(M, traceless=False, hermitian=True), one matrix M *)
 Definition ggm_expand_re (M : Matc) : list T :=
   odiv Op (fst (mtrace Op d M)) (osqrt Op (ofnat d))
   :: map (fun jk => odiv Op (fst (cadd Op (mget Op M (fst jk) (snd jk)) (mget Op M (snd jk) (fst jk)))) sqrt2) ggm_pairs
   ++ map (fun jk => odiv Op (fst (cmul Op (ci Op) (csub Op (mget Op M (fst jk) (snd jk)) (mget Op M (snd jk) (fst jk))))) sqrt2) ggm_pairs
-  ++ build (d - 1) (fun l' => let l := S l' in
+  ++ build (Nat.pred d) (fun l' => let l := S l' in
        odiv Op (fst (csub Op (csumn Op l (fun a => mget Op M a a)) (cscal Op (ofnat l) (mget Op M l l))))
                (diag_norm l)).
 
@@ -91,13 +91,15 @@ Definition liouville_stack (is_ggm : bool) (Us : list Matc) (basis : list Matc) 
    superoperator.liouville_to_choi:
    einsum('...ij,jba,icd->...acbd', S, basis, basis).reshape(d^2, d^2):
    choi[a*d+c][b*d+e] = sum_ij S_ij (C_j)_ba (C_i)_ce                                            *)
-Definition liouville_to_choi (S : list (list T)) (basis : list Matc) : Matc :=
+Definition choi_entry4 (S : list (list T)) (basis : list Matc) (a c b e : nat) : Cc :=
   let n := length basis in
-  mbuild (d * d) (d * d) (fun r c =>
-    let a := Nat.div r d in let c' := Nat.modulo r d in
-    let b := Nat.div c d in let e := Nat.modulo c d in
-    csumn Op n (fun i => csumn Op n (fun j =>
-      cmul Op (cscal Op (rget Op S i j) (mget Op (nthm basis j) b a)) (mget Op (nthm basis i) c' e)))).
+  csumn Op n (fun i => csumn Op n (fun j =>
+    cmul Op (cscal Op (rget Op S i j) (mget Op (nthm basis j) b a)) (mget Op (nthm basis i) c e))).
+(* reshape: row index (a, c) -> a*d + c, column index (b, e) -> b*d + e (row-major, written as nested
+   concatenation so that no division is needed) *)
+Definition liouville_to_choi (S : list (list T)) (basis : list Matc) : Matc :=
+  concat (build d (fun a => build d (fun c =>
+    concat (build d (fun b => build d (fun e => choi_entry4 S basis a c b e)))))).
 
 (* -(atol or basis._atol): None and 0.0 both select the default eps*d^3, eps = finfo(complex).eps *)
 Definition eps_complex : T := odya Op 1 (-52).
@@ -113,8 +115,10 @@ Definition liouville_is_CP (atol : T) (D : list T) : T := psd_flag (eff_atol ato
 
 (* liouville_is_cCP: Omega[::d+1] = 1/sqrt(d); Omega = outer(Omega, Omega); Q = eye - Omega;
    D are the eigenvalues returned by nla.eigh(Q @ choi @ Q)                                      *)
+(* the stride d+1 visits the flat positions a*d + a (Proofs/Superop.v: omega_vec_nth states the strided form) *)
 Definition omega_vec : list T :=
-  build (d * d) (fun r => if Nat.eqb (Nat.modulo r (d + 1)) 0 then odiv Op (o1 Op) (osqrt Op (ofnat d)) else o0 Op).
+  concat (build d (fun a => build d (fun c =>
+    if Nat.eqb a c then odiv Op (o1 Op) (osqrt Op (ofnat d)) else o0 Op))).
 Definition projQ : Matc :=
   mbuild (d * d) (d * d) (fun r c =>
     cofr Op (osub Op (if Nat.eqb r c then o1 Op else o0 Op) (omul Op (vget Op omega_vec r) (vget Op omega_vec c)))).
